@@ -86,6 +86,12 @@ world_frame cancelKindFor : (cancelKindFor w p act sig).1 ~ w keeps procs guards
   by (unfold cancelKindFor; zeta; fold_world; frame_close)
 end
 
+section
+variable (w : World)
+world_frame cancelUserAll : (cancelUserAll w).1 ~ w keeps procs guards res pools bufs oqs pqs conds flags gvars now
+  by (unfold cancelUserAll; zeta; fold_world; frame_close)
+end
+
 /-! ### recording -/
 
 section
